@@ -404,6 +404,52 @@ func TestVerifC08(t *testing.T) {
 		rowCase(c, "row:table")
 		done++
 	}
+	// 2b. near misses: a 7-rune pattern L c R whose middle rune c is NOT covered by the two selective trigrams (the trigrams
+	//     containing c are made frequent by extra lines), against the same text with c replaced by an UNRELATED rune of the
+	//     same UTF-8 length (a neighbour code point): only the verification step can reject it. Neither evaluation may match it.
+	nearPool := []rune{'é', 'ä', 'ö', 'ü', 'ß', 'ж', 'б', 'λ', 'σ', '世', '界', 'あ', 'ǆ', 'İ', 'K', 'ſ', 'ẞ', 'Ω', 'я', 'ç'}
+	low := []rune("abcdefghmnpqrtuvwxyz")
+	for k := 0; k < n/12+8; k++ {
+		c := nearPool[r.Intn(len(nearPool))]
+		if r.Chance(40) {
+			c = tab[r.Intn(len(tab))]
+		}
+		var c2 rune
+		for _, cand := range []rune{c + 1, c - 1, c ^ 1, c + 2, c ^ 2, c + 16} {
+			if cand > 0x7f && utf8.ValidRune(cand) && utf8.RuneLen(cand) == utf8.RuneLen(c) && unicode.ToLower(cand) != unicode.ToLower(c) &&
+				!vfC08InOrbit(c, cand) && unicode.IsPrint(cand) {
+				c2 = cand
+				break
+			}
+		}
+		if c2 == 0 || c < 0x80 {
+			continue
+		}
+		pick3 := func() []rune {
+			out := make([]rune, 3)
+			for i := range out {
+				out[i] = low[r.Intn(len(low))]
+			}
+			return out
+		}
+		L, R := pick3(), pick3()
+		p := append(append(append([]rune{}, L...), c), R...)
+		nm := append(append(append([]rune{}, L...), c2), R...)
+		mids := []string{string([]rune{L[1], L[2], c}), string([]rune{L[2], c, R[0]}), string([]rune{c, R[0], R[1]})}
+		var lines []string
+		lines = append(lines, string(p), string(nm))
+		for _, m := range mids {
+			lines = append(lines, m+" "+m+" "+m)
+		}
+		if r.Chance(50) {
+			lines = append(lines, strings.ToUpper(string(p)))
+		}
+		all := true
+		for _, x := range p {
+			all = all && agree(x)
+		}
+		vfC08One(t, p, strings.Join(lines, "\n")+"\n", "near-miss", all)
+	}
 	// 3. random strings over disagreeing runes, their relatives and ASCII
 	var pool []rune
 	for _, c := range disagree {
